@@ -23,3 +23,20 @@ Definition code_of {A} (r : res A) (okc : A -> list site -> nat) : nat :=
   match r with Ok a tr => okc a tr | OutOfFuel => 2 | Crash => 3 end.
 
 Definition opt_bool_code (o : option bool) : nat := match o with Some true => 1 | Some false => 0 | None => 2 end.
+
+(* structural equality of values, for comparing recorded call arguments *)
+Fixpoint val_eqb (a b : val) {struct a} : bool :=
+  match a, b with
+  | VQ k q t, VQ k' q' t' => kind_eqb k k' && Qeq_bool q q' && Bool.eqb t t'
+  | VNone, VNone => true
+  | VOther k i t, VOther k' i' t' => kind_eqb k k' && Nat.eqb i i' && Bool.eqb t t'
+  | VColl k l, VColl k' l' =>
+      kind_eqb k k' &&
+      (fix go (l l' : list val) {struct l} : bool :=
+         match l, l' with
+         | [], [] => true
+         | x :: r, y :: r' => val_eqb x y && go r r'
+         | _, _ => false
+         end) l l'
+  | _, _ => false
+  end.
